@@ -33,7 +33,7 @@ import core
 
 MANIFEST = dict(
     technique="TLA+ spec over code points (Deb822Value: statement layer + transcription of validate_input, _dump_format and the iter_paragraphs reader for str and file input with both whitespace settings) model-checked by TLC; bounded-exhaustive CASE lines replayed into Deb822/Dsc; recorded assignment histories validated by TLC (TraceDeb822Value)",
-    text="TLC enumerates every value up to length 5 (quick) / 6 (thorough) over the seven symbols x : # space tab CR LF, assigns it to the first, middle and last field of a three-field paragraph and checks on the transcription of the code that an accepted value, dumped and read back by the character-level model of iter_paragraphs (str.splitlines for str input, LF-terminated lines for file input), gives exactly one paragraph with the same field names when whitespace-only lines do not separate paragraphs, and under the default setting too when no continuation line is blank (Sound); that the three defects named by the statement imply rejection and that the validator's scanner equals the declarative characterisation (RejectComplete, RejectExact); that rejection leaves the paragraph unchanged. Every CASE line (value, classification accept/blank/zone/reject, expected key list) is replayed into the real Deb822 and Dsc classes (all three positions for what is accepted, several concretizations of x, d[k]=v and update()), the dump being read back from str, io.StringIO and io.BytesIO under both settings; assignment histories recorded from the real classes on random domain text up to 40 characters (4 000 values quick / 50 000 thorough, neighbour fields holding accepted multi-line values) are validated by TLC on the concrete code points, where the reader and validator models are evaluated as well.",
+    text="TLC enumerates every value up to length 5 (quick) / 6 (thorough) over the seven symbols x : # space tab CR LF, assigns it to the first, middle and last field of a three-field paragraph and checks on the transcription of the code that an accepted value, dumped and read back by the character-level model of iter_paragraphs (str.splitlines for str input, LF-terminated lines for file input), gives exactly one paragraph with the same field names when whitespace-only lines do not separate paragraphs, and under the default setting too when no continuation line is blank (Sound); that the three defects named by the statement imply rejection and that the validator's scanner equals the declarative characterisation (RejectComplete, RejectExact); that rejection leaves the paragraph unchanged. Every CASE line (value, classification accept/blank/zone/reject, expected key list) is replayed into the real Deb822 and Dsc classes (all three positions for what is accepted, several concretizations of x, d[k]=v and update()), the dump being read back from str, io.StringIO and io.BytesIO under both settings; assignment histories recorded from the real classes on random domain text up to 40 characters (3 200 values quick / 50 000 thorough, neighbour fields holding accepted multi-line values) are validated by TLC on the concrete code points, where the reader and validator models are evaluated as well.",
     note="Small scope: values <= 6 symbols exhaustively, longer ones sampled (traces); neighbour fields are 'x' in the model, richer in the traces. Unspecified (executed, never judged on acceptance): 'zone' = a lone CR followed by something that is not indentation (a defect only if CR ends a line; rejected today) and 'blank' = a whitespace-only continuation line (accepted today); whatever is accepted must still read back as one paragraph with the same keys. Default-setting read-back is judged only when no value of the paragraph has a blank continuation line. Characters outside the property's domain (NBSP, VT, FF, U+0085, U+2028, other Unicode whitespace) are never generated. Trusted: TLC, the projections (list(d.items()), key lists of the paragraphs read back), the concretizer. Spec-level negative controls and corrupted control traces are run in every check.",
     design="5 (C08)")
 
@@ -546,7 +546,7 @@ def spec_negative_controls(ctx):
     """Sound is not vacuous: each weakened validator / reader must make TLC report it violated"""
     def one(name):
         r = ctx.tlc("Deb822Value", cfg_variant("MC_Deb822Value_neg.cfg", **{name: "TRUE"}), count=False,
-                    workers=1, want_tags=set())
+                    workers=1, want_tags=set(), java_opts=["-XX:TieredStopAtLevel=1"])     # a few hundred states
         return name, r.violated
     with ThreadPoolExecutor(max_workers=len(NEG_CONTROLS)) as ex:
         results = list(ex.map(one, NEG_CONTROLS))
@@ -579,7 +579,7 @@ def run(ctx):
 
     # 1. (b) code -> spec: assignment histories are recorded first; TLC validates them on the
     #    code points in the background while the bounded configuration runs and is replayed
-    ntr, nev, deep_every = (500, 8, 1) if quick else (5000, 10, 4)
+    ntr, nev, deep_every = (400, 8, 1) if quick else (5000, 10, 4)
     traces = [record_trace(rng, CLASSES[i % 2], nev) for i in range(ntr)]
     for i, t in enumerate(traces):
         t["deep"] = (i % deep_every == 0)         # reader model evaluated by TLC on these (diagnostic)
